@@ -75,7 +75,7 @@ def jwkParseKind (c : Json) : Json :=
   match Jwk.ofJson? (c.getD "jwk") with
   | none => outOfDomain "jwk member of a non-string type"
   | some k =>
-    if k.kty = "OKP" then .obj [("parse", okErr (edFromJwk k).isSome)]
+    if k.kty = "OKP" then .obj [("parse", okErr (edFromJwk k).isSome), ("unmarshal", okErr (edFromJwk k).isSome)]
     else .obj [("parse", okErr (ecFromJwk k).isSome)]
 
 end Sidetree.Drv
